@@ -4,11 +4,12 @@
  *   rt <flags> <tree>           the same, then json_tokener_parse_ex(new_ex(32), text, -1), json_object_equal
  *                               against the original, and re-serialization of the parsed tree with the same flags
  *   sset <flags> <hex1> <hex2>  json_object_new_string_len(hex1), json_object_set_string_len(hex2), then as `ser`
- *   g17 <16 hex bits>           snprintf("%.17g") of the double and strtod of that text (libc reference check)
+ *   g17 <16 hex bits>           snprintf("%.17g") of the (finite) double, the text the serializer emits for it with
+ *                               flags 0, and strtod of that text (libc reference check)
  * output:
  *   ser/sset:  <reported length> <strlen> <hex text> ## ext=<0|1>
  *   rt:        <reported length> <strlen> <hex text> rt=<err> end=<n> eq=<0|1|-> re=<0|1|-> ## <dump of parsed tree | ->
- *   g17:       <hex text> <16 hex bits of strtod(text)> ## - */
+ *   g17:       <hex of %.17g> <hex of the serialized text> <16 hex bits of strtod(serialized text)> ## - */
 #include "jtree.h"
 #include "json_tokener.h"
 
@@ -140,11 +141,22 @@ int main(void)
 			for (int i = 0; i < 16; i++)
 				bits = bits * 16 + (uint64_t)hexv(W[1][i]);
 			memcpy(&d, &bits, 8);
-			int n = snprintf(buf, sizeof(buf), "%.17g", d);
-			e = strtod(buf, NULL);
-			memcpy(&back, &e, 8);
-			puthex(buf, (size_t)n);
-			printf(" %016" PRIx64 " ## -\n", back);
+			if (d != d || d - d != 0)
+				puts("nonfinite");
+			else
+			{
+				int n = snprintf(buf, sizeof(buf), "%.17g", d);
+				struct json_object *o = json_object_new_double(d);
+				size_t len = 0;
+				const char *t = json_object_to_json_string_length(o, 0, &len);
+				e = strtod(t, NULL);
+				memcpy(&back, &e, 8);
+				puthex(buf, (size_t)n);
+				putchar(' ');
+				puthex(t, len);
+				printf(" %016" PRIx64 " ## -\n", back);
+				json_object_put(o);
+			}
 		}
 		else
 			puts("bad-op");
